@@ -2,7 +2,7 @@
    nbdime/merging/strategies.py (resolve_strategy_generic, resolve_conflicted_decisions_list/_dict/_strings) written as
    INTERPRETERS of the if/elif chains that tools/gen/gen_strategies.py reads off the source (Gen/Strategies.v).
    StrategiesProofs.v shows that the hand-written dispatchers of the merge core (Decisions.b_tryresolve,
-   MergeGeneric.resolve_strategy_generic, resolve_conflicted_*) are these interpreters applied to the generated chains, so
+   MergeGeneric.resolve_strategy_generic, resolve_conflicted_list, _dict, _strings) are these interpreters applied to the generated chains, so
    that adding, removing or reordering an arm in the source breaks a proof obligation.
 
    Also here: what "resolving a conflicted decision to a side" means (C10). *)
@@ -48,13 +48,13 @@ Definition arm_try_action (a : arm) : res (option action) :=
 Definition src_try_action (s : pystr) : res (option action) :=
   arm_try_action (select_arm (d_chain src_tryresolve) (d_else src_tryresolve) s).
 
-Definition tryresolve_src (B : builder) (p : path) (l r : option diff) (strategy : option pystr)
+Definition tryresolve_src (cs : bool) (B : builder) (p : path) (l r : option diff) (strategy : option pystr)
   : res (builder * bool) :=
   match strategy with
   | None | Some [] => Ok (B, false)
   | Some s =>
       if negb (truthy l && truthy r) then Err AssertionError else
-      if odiff_pyeqb l r then Err AssertionError else
+      if conflict_args_eqb cs l r then Err AssertionError else
       do a <- src_try_action s;
       match a with
       | Some a => Ok (add_decision B p a l r false strategy None None, true)
